@@ -58,6 +58,16 @@ CHECKS = {
              'duplicate calls and cancel-all; engine sessions traced for double finalisation, registry and trade membership.',
         technique='Lean 4 theorems over the accounts model (state equality for no-ops, status order, registry filter); correspondence; traced engine sessions',
         ref='4 (C05)'),
+    'C06': dict(
+        text='Engine + accounts model (position hooks chosen from |previous qty| vs |qty|, trade records built from executed '
+             'orders) tied to the real engine by whole-session trace correspondence (hooks, fills, closed-trade count); oracle '
+             'on real traces: well-formed cycles, one matching hook per fill, one closed trade per cycle with the side, '
+             'quantity, weighted entry/exit, times and orders of its fills, futures net PnL = wallet change. The two '
+             'situations in which the unchanged code violates this (oversize reduce-only fill, flip) are known findings '
+             'C06-F1/F2 with witnesses; every other deviation is reported.',
+        technique='Lean 4 engine/accounts model + whole-session correspondence; trade-log oracle on real traces; classified known findings',
+        ref='4 (C06)',
+        note='Theorems: the per-fill accounting of C03 (refinement to the margin account) and C05 (one trade per executed order); the cycle/PnL identity theorems are not yet stated.'),
     'C07': dict(
         text='Proof: the GENERATED generate_candle_from_one_minutes is the aggregation (window start, first open, last close, '
              'max high, min low, summed volume) for every non-empty list; the GENERATED gap normalisation only moves the open '
@@ -88,6 +98,14 @@ CHECKS = {
              'profit side, STOP on the loss side, reduce-only, closing side), quantity and price exact, fall-through unreachable.',
         technique='Lean 4 theorems over generated routing functions; translator cross-check on real Strategy/Broker objects; routing-table oracle',
         ref='4 (C10)'),
+    'C12': dict(
+        text='Engine model of BOTH simulators tied to the real engine by whole-session trace correspondence per simulator; '
+             'oracle: the same real session under fast_mode False/True, filtered by the hypothesis on the normal run (at most '
+             'one resting order filled per trading-candle span, no liquidation): equal executed orders (side, type, qty, price, '
+             'minute), closed trades and final balances.',
+        technique='Lean 4 engine model (step and chunked simulators) + per-simulator correspondence; paired-run oracle under the stated hypothesis',
+        ref='4 (C12)',
+        note='The simulation-relation theorem between the two model simulators is not yet proved (evidence.unproved).'),
     'C17': dict(
         text='Proof over the generated size_to_qty / risk_to_qty / risk_to_size / floor_with_precision / round_decimals_down / '
              'limit_stop_loss / max_timeframe and the three timeframe tables: never overspends (fees included), never over-risks, '
